@@ -65,10 +65,21 @@ fn hand_cases() -> Vec<(&'static str, u32, Vec<String>)> {
         ("or root with only a false child", 1, ls("o 1 0 / f 2 0 / 1 2 1 0")),
         ("or root, unlabelled true child", 0, ls("o 1 0 / t 2 0 / 1 2 0")),
         ("or root, unlabelled true child, free feature", 1, ls("o 1 0 / t 2 0 / 1 2 0")),
+        // repair F12: an or node with a true child becomes a true node
+        ("d4 root idiom for a tautology, three free features", 3, ls("o 1 0 / t 2 0 / 1 2 0")),
+        ("or node with an unlabelled edge to t plus labelled edges", 2, ls("o 1 0 / t 2 0 / 1 2 1 0 / 1 2 0 / 1 2 -1 2 0")),
+        ("or node with a labelled edge first, then the unlabelled edge to t", 2, ls("o 1 0 / t 2 0 / 1 2 0 / 1 2 1 2 0")),
+        ("or->t below an and node", 2, ls("o 1 0 / a 2 0 / o 3 0 / t 4 0 / 3 4 0 / 2 3 0 / 2 4 0 / 1 2 1 0 / 1 4 -1 2 0")),
+        ("or->t as the only child of an and node", 1, ls("o 1 0 / a 2 0 / o 3 0 / t 4 0 / 3 4 0 / 2 3 0 / 1 2 1 0 / 1 4 -1 0")),
+        ("nested or->or->t", 1, ls("o 1 0 / o 2 0 / o 3 0 / t 4 0 / 3 4 0 / 2 3 0 / 1 2 0")),
+        ("nested or->or->t with a labelled sibling", 2, ls("o 1 0 / o 2 0 / o 3 0 / t 4 0 / 3 4 0 / 2 3 0 / 2 4 2 0 / 1 2 1 0 / 1 4 -1 0")),
+        ("or with a false child and then a true child", 1, ls("o 1 0 / f 2 0 / t 3 0 / 1 3 0 / 1 2 1 0")),
+        ("or->t shared by two and parents", 2, ls("o 1 0 / a 2 0 / a 3 0 / o 4 0 / t 5 0 / 4 5 0 / 2 4 0 / 3 4 0 / 1 2 1 0 / 1 3 -1 2 0")),
+        ("and with a false child above an or->t", 1, ls("o 1 0 / a 2 0 / o 3 0 / t 4 0 / f 5 0 / 3 4 0 / 2 3 0 / 2 5 0 / 1 2 1 0 / 1 4 -1 0")),
         ("literal 0 on an edge", 1, ls("o 1 0 / t 2 0 / 1 2 0 0")),
         ("repeated literal on an edge", 3, ls("o 1 0 / t 2 0 / 1 2 3 3 0 / 1 2 -3 1 0")),
-        ("feature id 100000 (occurrence table)", 5, ls("o 1 0 / t 2 0 / 1 2 100000 0")),
-        ("total_features 100000 (free-feature loop)", 100000, ls("o 1 0 / t 2 0 / 1 2 1 0 / 1 2 -1 0")),
+        ("feature id 100000 with 5 features: the occurrence table grows (F11), 99999 free features", 5, ls("o 1 0 / t 2 0 / 1 2 100000 0")),
+        ("total_features 100000 (F11: the table has n+1 entries)", 100000, ls("o 1 0 / t 2 0 / 1 2 1 0 / 1 2 -1 0")),
         ("trailing blank after the final 0", 1, ls("o 1 0 / t 2 0 / 1 2 1 0 ")),
         ("C18 example: six missing features", 6, ls("o 1 0 / t 2 0 / 1 2 1 2 3 4 5 6 0 / 1 2 -1 0")),
         ("parallel unlabelled edges below an or", 2, ls("o 1 0 / o 2 0 / t 3 0 / 1 2 0 / 1 2 0 / 1 3 -1 -2 0 / 2 3 1 0 / 2 3 -1 2 0")),
